@@ -108,7 +108,7 @@ func ruleSharedRead(w *World, r *Report, set map[*ssa.Function]bool) {
 	const rule = "R-SHAREDREAD"
 	r.Rule(rule, "every package-level variable read in the evaluation closure has no Store/MapUpdate/append/copy/mutating call anywhere in the package outside the package initialiser", 3)
 	read := map[*ssa.Global]ssa.Instruction{}
-	for fn := range set {
+	for _, fn := range w.SortedFuncs(set) {
 		EachInstr(fn, func(in ssa.Instruction) {
 			var ops []*ssa.Value
 			for _, op := range in.Operands(ops) {
